@@ -393,6 +393,36 @@ Section ABFProofs.
     apply (czar_gather_sum (e_z r :: map e_z others)).
   Qed.
 
+  (* write_output_files() runs the gather at every output: however often, replica 0 holds every walker's z data
+     once, and nobody's own grids move (the gather reads e_z only, and leaves it alone) *)
+  Theorem czar_gather_idempotent : forall (ws : list (ewalker (A:=A))),
+    czar_gather_step G (czar_gather_step G ws) = czar_gather_step G ws.
+  Proof. intros [|r others]; reflexivity. Qed.
+
+  Theorem czar_gather_repeated : forall (k : nat) (ws : list (ewalker (A:=A))),
+    Nat.iter (S k) (czar_gather_step G) ws = czar_gather_step G ws.
+  Proof.
+    induction k as [|k IH]; intros ws; [reflexivity|].
+    change (Nat.iter (S (S k)) (czar_gather_step G) ws) with (czar_gather_step G (Nat.iter (S k) (czar_gather_step G) ws)).
+    rewrite IH. apply czar_gather_idempotent.
+  Qed.
+
+  (* a restart of an eABF walker changes nothing it holds; a gather after it sees the same z grids *)
+  Theorem ew_restart_identity : forall t (w : ewalker (A:=A)),
+    wG (e_w (ew_restart t w)) = wG (e_w w) /\ wL (e_w (ew_restart t w)) = wL (e_w w) /\
+    wLoc (e_w (ew_restart t w)) = wLoc (e_w w) /\ e_z (ew_restart t w) = e_z w.
+  Proof. intros; repeat split. Qed.
+
+  Theorem czar_gather_after_restarts : forall t (ws : list (ewalker (A:=A))) j r others,
+    czar_gather_step G (map (ew_restart t) ws) = r :: others -> e_gz r j = msum (map e_z ws) j.
+  Proof.
+    intros t ws j r others H.
+    destruct (czar_gather_frame (map (ew_restart t) ws)) as (_ & _ & F).
+    destruct ws as [|w0 tl]; [discriminate|].
+    destruct (F (ew_restart t w0) (map (ew_restart t) tl) j eq_refl) as (r' & E & Hg).
+    rewrite E in H. injection H as <- _. rewrite Hg. rewrite map_map. reflexivity.
+  Qed.
+
   (* a restart through a state file written by the repaired code (last_* saved) changes none of the three grids,
      wherever it happens *)
   Theorem restart_identity : forall t (w : W), wG (w_restart t w) = wG w /\ wL (w_restart t w) = wL w /\ wLoc (w_restart t w) = wLoc w.
@@ -430,6 +460,37 @@ End ABFProofs.
    two walkers, walker 1 collects one sample (address 0, value 1), is restarted, exchange at step 2:
    replica 0 never receives the sample and walker 1's global grid, overwritten by the broadcast, loses it *)
 Definition abf_old_witness : list (ev (A:=Z)) := [ESample 1%nat 0 1; ERestart 1%nat 1; EExchange 2].
+
+(* sharing enabled by a script, before the repairs of round 4.
+   (1) two eABF walkers with one z sample each (addresses 0 and 1): two outputs in a row leave replica 0 with
+       walker 1's sample twice in its OWN z grid;
+   (2) two walkers, one sample each, exchange, both restarted by the old reading rule, exchange again with no new
+       sample: every walker holds each sample twice. *)
+Definition one_at (i : Z) : grid (A:=Z) := fun j => if Z.eqb i j then 1 else 0.
+Definition czar_alias_witness : list (ewalker (A:=Z)) :=
+  [mkEW (w_init Zgrp 0) (one_at 0) (grid0 Zgrp); mkEW (w_init Zgrp 0) (one_at 1) (grid0 Zgrp)].
+
+Lemma czar_alias_refuted :
+  exists r others, czar_gather_step_alias Zgrp (czar_gather_step_alias Zgrp czar_alias_witness) = r :: others /\
+    e_z r 1 = 2 /\ e_gz r 1 = 2 /\ msum Zgrp (map e_z czar_alias_witness) 1 = 1.
+Proof. eexists. eexists. split; [reflexivity|]. vm_compute. auto. Qed.
+
+Lemma czar_alias_witness_ok :
+  exists r others, czar_gather_step Zgrp (czar_gather_step Zgrp czar_alias_witness) = r :: others /\
+    e_z r 1 = 0 /\ e_gz r 1 = 1.
+Proof. eexists. eexists. split; [reflexivity|]. vm_compute. auto. Qed.
+
+Definition script_restart_witness : list (ev (A:=Z)) := [ESample 0%nat 0 1; ESample 1%nat 0 1; EExchange 1].
+
+Lemma script_restart_refuted :
+  exists w, nth_error (exchange Zgrp 2 (map (w_restart_unshared Zgrp 1) (run Zgrp false script_restart_witness (init Zgrp 2)))) 0 = Some w /\
+    wG w 0 = 4 /\ fed_union Zgrp 2 (script_restart_witness ++ [EExchange 2]) 0 = 2.
+Proof. eexists. split; [reflexivity|]. vm_compute. auto. Qed.
+
+Lemma script_restart_witness_ok :
+  exists w, nth_error (exchange Zgrp 2 (map (w_restart 1) (run Zgrp false script_restart_witness (init Zgrp 2)))) 0 = Some w /\
+    wG w 0 = 2.
+Proof. eexists. split; [reflexivity|]. vm_compute. auto. Qed.
 
 Lemma abf_old_refuted :
   exists es : list (ev (A:=Z)), exists w, nth_error (run Zgrp true es (init Zgrp 2)) 1 = Some w /\
